@@ -92,6 +92,12 @@ M = [
  ("c16-many-many0", ["C16"], "src/tls_record.rs", "pub fn tls_parser_many(i: &[u8]) -> IResult<&[u8], Vec<TlsPlaintext>> {\n    many1(complete(parse_tls_plaintext))(i)", "pub fn tls_parser_many(i: &[u8]) -> IResult<&[u8], Vec<TlsPlaintext>> {\n    nom::multi::many0(complete(parse_tls_plaintext))(i)"),
  ("c16-many-no-complete", ["C16"], "src/dtls.rs", "    many1(complete(parse_dtls_plaintext_record))(i)", "    many1(parse_dtls_plaintext_record)(i)"),
  ("c16-alias-encrypted", ["C16"], "src/tls_record.rs", "pub fn tls_parser(i: &[u8]) -> IResult<&[u8], TlsPlaintext> {\n    parse_tls_plaintext(i)", "pub fn tls_parser(i: &[u8]) -> IResult<&[u8], TlsPlaintext> {\n    if i.len() > 70000 {\n        return Err(Err::Error(make_error(i, ErrorKind::TooLarge)));\n    }\n    parse_tls_plaintext(i)"),
+ # ---- two cooperating sites: the crate's PartialEq is weakened AND a parser drops the same field
+ ("x-peq-weakened-plus-compression-dropped", ["C04", "C03", "C09"], [
+    ("src/tls_handshake.rs", "/// TLS Server Hello (from TLS 1.0 to TLS 1.2)\n#[derive(Clone, PartialEq)]\npub struct TlsServerHelloContents<'a> {", "/// TLS Server Hello (from TLS 1.0 to TLS 1.2)\n#[derive(Clone)]\npub struct TlsServerHelloContents<'a> {"),
+    ("src/tls_handshake.rs", "/// TLS Server Hello (TLS 1.3 draft 18)\n#[derive(Clone, PartialEq)]", "impl<'a> PartialEq for TlsServerHelloContents<'a> {\n    fn eq(&self, o: &Self) -> bool {\n        self.version == o.version && self.random == o.random && self.session_id == o.session_id && self.cipher == o.cipher && self.ext == o.ext\n    }\n}\n\n/// TLS Server Hello (TLS 1.3 draft 18)\n#[derive(Clone, PartialEq)]"),
+    ("src/tls_handshake.rs", "    let content = TlsServerHelloContents::new(version, random, sid, cipher, comp, ext);\n    Ok((i, content))", "    let content = TlsServerHelloContents::new(version, random, sid, cipher, comp & 0x7f, ext);\n    Ok((i, content))"),
+   ], "", ""),
  # ---- C17
  ("c17-constant-digit", ["C17"], "src/tls_alert.rs", "    UnknownCa              = 0x30,", "    UnknownCa              = 0x38,"),
  ("c17-names-swapped", ["C17"], "src/tls_ec.rs", "    Secp256k1 = 22,\n    Secp256r1 = 23,", "    Secp256r1 = 22,\n    Secp256k1 = 23,"),
@@ -110,15 +116,17 @@ def run_one(m):
     work = "/tmp/mutwork/" + name
     shutil.rmtree(work, ignore_errors=True)
     os.makedirs(work)
-    res = {"name": name, "file": f, "properties": props}
+    res = {"name": name, "file": f if isinstance(f, str) else "+".join(x[0] for x in f), "properties": props}
     env = dict(os.environ, CARGO_NET_OFFLINE="true", CARGO_TERM_COLOR="never")
     try:
         rc, out = sh(["git", "-C", R, "worktree", "add", "--detach", "-q", work + "/repo", "HEAD"])
-        src = open(work + "/repo/" + f).read()
-        if src.count(old) != 1:
-            res["status"] = "edit-does-not-apply(%d)" % src.count(old)
-            return res
-        open(work + "/repo/" + f, "w").write(src.replace(old, new))
+        edits = f if isinstance(f, list) else [(f, old, new)]
+        for (ff, oo, nn) in edits:
+            src = open(work + "/repo/" + ff).read()
+            if src.count(oo) != 1:
+                res["status"] = "edit-does-not-apply(%d)" % src.count(oo)
+                return res
+            open(work + "/repo/" + ff, "w").write(src.replace(oo, nn))
         rc, out = sh(["cargo", "test", "--offline", "--workspace", "--no-fail-fast", "--target-dir", work + "/rtarget"], cwd=work + "/repo", env=env)
         if rc != 0:
             res["status"] = "does-not-compile" if "error[" in out or "error:" in out and "test result" not in out else "killed-by-tests"
